@@ -32,7 +32,7 @@ impl Monitor for C06 {
         "base case (plain / DISTINCT / aggregate / join / join-aggregate statement, sometimes with LIMIT n, over a standard table that may declare one column NOT NULL) + 1-10 noise lines certified non-admitted by the reference extraction (non-matching text, empty lines, truncated / non-JSON documents, documents with only wrong-typed or absent fields, lines failing the NOT NULL column, near misses) inserted at random positions incl. first and last, also into the joined file. Oracle: batch output identical with and without noise; incremental per-line outputs identical once the noise positions are removed, and a noise line produces no output. Non-trivial = a noise line lies strictly between two admitted lines and the base output is non-empty; distinct by case hash"
     }
     fn assumptions(&self) -> Vec<String> { vec!["non-admission of the noise lines is decided by the reference extraction of C01/C02, not by the engine".into()] }
-    fn sizes(&self, tier: Tier) -> Sizes { match tier { Tier::Quick => Sizes { cases: 6_000, min_nontrivial: 2_000 }, Tier::Thorough => Sizes { cases: 300_000, min_nontrivial: 100_000 } } }
+    fn sizes(&self, tier: Tier) -> Sizes { match tier { Tier::Quick => Sizes { cases: 9_000, min_nontrivial: 2_000 }, Tier::Thorough => Sizes { cases: 300_000, min_nontrivial: 60_000 } } }
 
     fn generate(&self, rng: &mut Rng, _tier: Tier) -> J {
         let not_null = rng.chance(1, 3);
